@@ -45,7 +45,8 @@ theorem gen_clause_order :
     (Gen.selectPipeline.lookup "selectEntity").map (·.drop 1) =
       some ["LoadView", "entity.WhereClause => view.Where", "entity.GroupByClause => view.GroupBy",
             "entity.HavingClause => view.Having", "view.Select"]
-    ∧ Gen.selectPipeline.lookup "Select" =
+    ∧ Gen.selectPipeline.lookup "Select" = some ["selectQuery"]
+    ∧ Gen.selectPipeline.lookup "selectQuery" =
       some ["selectEntity", "query.OrderByClause => view.OrderBy", "limitClause.OffsetClause => view.Offset",
             "limitClause.Type => view.Limit", "view.Fix"] := by decide
 
